@@ -58,3 +58,9 @@ inline uint64_t timestamp() {
 
 } // namespace detail
 } // namespace dispenso
+
+#if defined(DISPENSO_VERIF) && defined(DISPENSO_HAS_TIMESTAMP)
+// Verification builds read time through std::chrono (timing.cpp's fallback), so that a harness can
+// interpose the clock; a cycle counter cannot be interposed.
+#undef DISPENSO_HAS_TIMESTAMP
+#endif // DISPENSO_VERIF
